@@ -444,6 +444,8 @@ class SpawnBase(object):
 
         See expect() for other arguments, return value and exceptions. '''
 
+        if timeout == -1:
+            timeout = self.timeout
         exp = Expecter(self, searcher, searchwindowsize)
         return exp.expect_loop(timeout)
 
